@@ -5,6 +5,17 @@
    carried by a serialised pattern (checked on every pattern of the correspondence run). *)
 From Verif Require Import Base Utf8 Regex RegexProofs Prefilter PrefilterProofs.
 
+(* The AST ranges over every node kind of regexp/syntax: literals (with FoldCase orbits), classes,
+   . and (?s)., ^ $ \A \z \b \B, empty and no-match, captures, * + ? (greedy or not: same match
+   set), counted repetition {n,m} / {n,} (Rep; present before Simplify), n-ary concatenation and
+   alternation.  All theorems below quantify over all such ASTs. *)
+
+(* counted repetition: between mn and mx iterations of the body, one after the other *)
+Theorem C11_repeat_semantics : forall w f mn mx a i j, M w (Rep f mn mx a) i j <->
+  exists n, ML w (repeat a n) i j /\ (mn <= n)%nat /\ match mx with Some m => (n <= m)%nat | None => True end.
+Proof. exact M_rep_iff. Qed.
+Print Assumptions C11_repeat_semantics.
+
 (* the main theorem: when the prefilter closure answers "cannot match", the regex has no match *)
 Theorem C11_prefilter_sound : forall r w,
   wf_re r = true -> prefilter r w = false -> ~ re_matches r w.
